@@ -133,14 +133,72 @@ func recvName(fd *ast.FuncDecl) string {
 }
 
 func findFunc(recv, name string) *ast.FuncDecl {
+	return findFuncDepth(recv, name, 0)
+}
+
+func findFuncDepth(recv, name string, depth int) *ast.FuncDecl {
 	for _, f := range files {
 		for _, d := range f.Decls {
 			if fd, ok := d.(*ast.FuncDecl); ok && fd.Name.Name == name && recvName(fd) == recv {
+				// a forwarder kept under the old name (`func (c *T) old(a, b) R { return c.new(a, b) }`)
+				// stands for the function it forwards to
+				if to := forwardsTo(fd); to != "" && depth < 3 {
+					if t := findFuncDepth(recv, to, depth+1); t != nil {
+						return t
+					}
+				}
 				return fd
 			}
 		}
 	}
 	return nil
+}
+
+// forwardsTo: the body is one statement that calls another function (of the same receiver) with
+// exactly this function's parameters, in order; returns that function's name.
+func forwardsTo(fd *ast.FuncDecl) string {
+	if fd.Body == nil || len(fd.Body.List) != 1 {
+		return ""
+	}
+	var call *ast.CallExpr
+	switch st := fd.Body.List[0].(type) {
+	case *ast.ReturnStmt:
+		if len(st.Results) == 1 {
+			call, _ = st.Results[0].(*ast.CallExpr)
+		}
+	case *ast.ExprStmt:
+		call, _ = st.X.(*ast.CallExpr)
+	}
+	if call == nil {
+		return ""
+	}
+	var params []string
+	for _, p := range fd.Type.Params.List {
+		for _, n := range p.Names {
+			params = append(params, n.Name)
+		}
+	}
+	if len(call.Args) != len(params) {
+		return ""
+	}
+	for i, a := range call.Args {
+		if id, ok := a.(*ast.Ident); !ok || id.Name != params[i] {
+			return ""
+		}
+	}
+	switch x := call.Fun.(type) {
+	case *ast.Ident:
+		if fd.Recv == nil {
+			return x.Name
+		}
+	case *ast.SelectorExpr:
+		if fd.Recv != nil && len(fd.Recv.List) == 1 && len(fd.Recv.List[0].Names) == 1 {
+			if id, ok := x.X.(*ast.Ident); ok && id.Name == fd.Recv.List[0].Names[0].Name {
+				return x.Sel.Name
+			}
+		}
+	}
+	return ""
 }
 
 // constants collects package-level untyped integer/string constants.
